@@ -239,6 +239,21 @@ pub fn run(cfg: &Cfg, rep: &mut Report) {
                             "each stream tiles [0, len], or the two streams meet".into(),
                         ));
                     }
+                    // Whatever next_back() did in between, the forward Match steps are find_iter's
+                    // matches in order: a prefix of them, and all of them once the forward stream
+                    // alone has covered the haystack.
+                    let fm: Vec<(usize, usize)> = fw.iter().filter_map(|s| if let SearchStep::Match(a, b) = s { Some((*a, *b)) } else { None }).collect();
+                    let is_prefix = fm.len() <= expected.len() && fm[..] == expected[..fm.len()];
+                    let complete = matches!(fw.last(), Some(SearchStep::Done)) && f_end == hay.len();
+                    if !is_prefix || (complete && fm != expected) {
+                        rep.violation(violation(
+                            "C20",
+                            "interleaved next()/next_back(): Match steps of the forward searcher are not find_iter's matches in order",
+                            case().set("direction", "interleaved"),
+                            format!("forward: {} | backward: {}", show(&fw), show(&bw)),
+                            format!("a prefix of {:?}", expected),
+                        ));
+                    }
                     rep.inc("interleavings");
                     rep.eval(fnv64(format!("mix|{}|{}|{:?}", ri, hay, choices).as_bytes()), !expected.is_empty());
                     let e1 = check_tiling(hay, &fw, true, false);
